@@ -345,6 +345,60 @@ def run_job_iterator(ctx, terms, metas):
                              % (auto, len(got), len(set(got)), len(want)), dict(links={str(i): sorted(v) for i, v in links.items()}, auto=auto, got=got),
                              case=("rr", k, auto))
 
+START_SCRIPT = r"""
+import json, sys, multiprocessing
+import numpy as np
+P = json.loads(sys.stdin.read())
+multiprocessing.set_start_method(P["method"], force=True)
+import yaw
+from astropy.cosmology import FlatLambdaCDM, LambdaCDM
+cos = {"flat": FlatLambdaCDM(H0=61.0, Om0=0.41), "curved": LambdaCDM(H0=70.0, Om0=0.3, Ode0=0.9), "named": "WMAP9"}[P["cosmology"]]
+cfg = yaw.Configuration.create(rmin=P["rmin"], rmax=P["rmax"], unit=P["unit"], rweight=P["rweight"], resolution=P["resolution"],
+                               edges=P["edges"], closed=P["closed"], cosmology=cos, max_workers=1)
+out = {}
+for w in P["workers"]:
+    ref, unk, rand = (yaw.Catalog(d, max_workers=w) for d in P["dirs"])
+    cfs = yaw.crosscorrelate(cfg, ref, unk, ref_rand=rand, max_workers=w)
+    h = yaw.HistData.from_catalog(ref, cfg, max_workers=w) if hasattr(yaw, "HistData") else None
+    from yaw.redshifts import HistData
+    h = HistData.from_catalog(ref, cfg, max_workers=w)
+    out[str(w)] = [[np.ascontiguousarray(getattr(cf, k).counts.counts).view("u8").tolist() for k in ("dd", "dr") if getattr(cf, k) is not None] for cf in cfs] \
+        + [np.ascontiguousarray(h.data).view("u8").tolist(), np.ascontiguousarray(h.samples).view("u8").tolist()]
+print(json.dumps(out))
+"""
+
+
+def run_start_methods(ctx):
+    """How worker processes come to life: forked (they inherit the parent's memory), spawned or served by a fork server (they start
+    empty and receive everything by pickling).  The result must not depend on the worker count under ANY start method, for any
+    configuration value (non-default cosmology, units, separation weights)."""
+    from lib import optmode
+    rng = ctx.rng
+    for rnd in range(ctx.n(1, 4)):
+        ref, unk, rand = make_cats(ctx, rng.randrange(10 ** 6), 3, suffix="_sm%d" % rnd)
+        dirs = [str(c.cache_directory) for c in (ref, unk, rand)]
+        for method in (["spawn", "forkserver"] if ctx.quick() else ["fork", "spawn", "forkserver"]):
+            payload = dict(method=method, dirs=dirs, workers=[1, 2, 3], cosmology=rng.choice(["flat", "curved", "named"]),
+                           rmin=[100.0, 500.0], rmax=[1000.0, 5000.0], unit=rng.choice(["kpc", "kpc/h", "Mpc"]) if rnd else "kpc",
+                           rweight=rng.choice([None, -0.8]), resolution=rng.choice([None, 20]), edges=[0.1, 0.3, 0.5, 0.7],
+                           closed=rng.choice(["left", "right"]))
+            if payload["unit"] == "Mpc":
+                payload["rmin"], payload["rmax"] = [0.1, 0.5], [1.0, 5.0]
+            res = optmode.run(START_SCRIPT, payload, flags=(), env_extra=dict(PYTHONPATH=impl.REPO_SRC, YAW_NUM_THREADS="4"), timeout=600)
+            ctx.count(key=("start", rnd, method), nontrivial=True, kind="start-method/%s" % method)
+            got = res["result"]
+            if res["rc"] != 0 or not isinstance(got, dict):
+                ctx.fail("c05-start-method-run-fails:%s" % method, "a measurement in an interpreter whose worker processes are started by %r "
+                         "did not complete: %s" % (method, res["stderr"][-600:]), dict(payload=payload), case=("start", rnd, method))
+                continue
+            if not (got["1"] == got["2"] == got["3"]):
+                ctx.fail("c05-depends-on-worker-count:start-method-%s" % method,
+                         "crosscorrelate / HistData.from_catalog with worker processes started by %r differ between 1, 2 and 3 workers "
+                         "(1 worker runs in the calling process)" % method, dict(payload=payload, equal_1_2=got["1"] == got["2"], equal_2_3=got["2"] == got["3"]),
+                         case=("start", rnd, method))
+        for c in (ref, unk, rand):
+            shutil.rmtree(str(c.cache_directory), ignore_errors=True)
+
 
 def run(ctx):
     import yaw
@@ -475,6 +529,7 @@ def run(ctx):
         for c in (ref, unk, rand):
             shutil.rmtree(str(c.cache_directory), ignore_errors=True)
     run_job_iterator(ctx, terms, metas)
+    run_start_methods(ctx)
     run_generic(ctx)
     run_large_patch(ctx)
     run_inputs_reused(ctx)
